@@ -33,6 +33,12 @@ CLAIMED.update({
     'C05': ('All chunkings/feeding styles/retrieval interleavings of every stream up to length 2 (3 without retrieval ops) agree with '
             'parse_all; inductive lemmas from arbitrary parser states (feed is a monoid action; retrieval commutes with feeding and is '
             'FIFO; pending/get_message/iteration contract) carry it to streams of any length; ParserQueue single-threaded.', '4/C05'),
+    'C06': ('From every tokenizer state satisfying the invariant (= any prefix) feeding the encoding of a symbolic valid message of '
+            'each of the 18 types queues exactly that message; direct twin with explicit prefixes up to 2 bytes; concatenations; '
+            'real-time bytes at every position strictly inside a sysex are delivered ahead and leave the payload intact.', '4/C06'),
+    'C09': ('Every integer attribute of every meta type symbolic over +-2^40: accepted iff documented, wire layout against an '
+            'arithmetic SMF reference, from_bytes and read_meta_message both give back an equal message; denominator symbolic over '
+            '320-bit integers; VLQ over +-2^40; payload length of from_bytes symbolic up to 2^21; key table, text boundary lengths.', '4/C09'),
 })
 
 PENDING = {}     # id -> reason (not claimed)
